@@ -99,6 +99,7 @@ pub fn worker_main(spec_path: &str) -> i32 {
         let res = match spec.mode.as_str() {
             "layer_a" => crate::layer_a::run(&spec),
             "dap" => crate::dap::run(&spec),
+            "layer_b" => crate::layer_b::run(&spec),
             other => WorkerResult { verdict: "harness_error".into(), detail: format!("unknown mode {other}"), ..Default::default() },
         };
         res.write(&out);
